@@ -764,6 +764,9 @@ fn xref_section(ctx: &mut Ctx, offset: usize, first_revision_hint: bool) -> R<Re
                 lx.p += 20;
             }
         }
+        if subsections.is_empty() {
+            return Err(format!("cross-reference table at {} has no subsection", offset));
+        }
         lx.expect_kw(b"trailer")?;
         lx.skip_ws();
         let trailer = lx.dictionary(0)?;
